@@ -519,3 +519,130 @@ func genPending(root *pkgSrc) {
 }
 
 func init() { generators = append(generators, genPending) }
+
+// ---- one id counter per client (C01): every method of Client / StdioClient that issues a request through its transport
+// numbers it from the client's own counter (`c.requestID.Add(1)`); a request built without an id would be numbered by a
+// transport-side fallback (`if req.ID == nil { req.ID = … }`) from another counter, and two counters feeding one pending
+// table collide.
+
+type pdClientOp struct{ client, method, idSource string }
+
+func pdClientOps(p *pkgSrc) []pdClientOp {
+	var out []pdClientOp
+	for _, spec := range []struct{ file, recv string }{{"client.go", "Client"}, {"stdio_client.go", "StdioClient"}} {
+		file := p.files[spec.file]
+		if file == nil {
+			continue
+		}
+		for _, d := range file.Decls {
+			fd, ok := d.(*ast.FuncDecl)
+			if !ok || fd.Body == nil || fd.Recv == nil || !strings.HasPrefix(funcName(fd), spec.recv+".") {
+				continue
+			}
+			sends := false
+			var idExprs []ast.Expr
+			built := 0
+			ast.Inspect(fd.Body, func(n ast.Node) bool {
+				switch x := n.(type) {
+				case *ast.CallExpr:
+					t := pdSquash(p.text(x.Fun))
+					if strings.HasSuffix(t, ".transport.sendRequest") || strings.HasSuffix(t, ".transport.sendRequestWithStream") {
+						sends = true
+					}
+					if t == "newJSONRPCRequest" && len(x.Args) >= 1 {
+						built++
+						idExprs = append(idExprs, x.Args[0])
+					}
+				case *ast.CompositeLit:
+					if p.text(x.Type) == "JSONRPCRequest" {
+						built++
+						for _, el := range x.Elts {
+							if kv, ok := el.(*ast.KeyValueExpr); ok && p.text(kv.Key) == "ID" {
+								idExprs = append(idExprs, kv.Value)
+							}
+						}
+					}
+				}
+				return true
+			})
+			if !sends {
+				continue
+			}
+			src := "other"
+			switch {
+			case built == 0:
+				src = "other" // the request comes from somewhere this extractor does not follow
+			case len(idExprs) < built:
+				src = "none" // a request literal without an ID member
+			default:
+				src = "clientCounter"
+				for _, e := range idExprs {
+					if pdSquash(p.text(pdResolve(p, fd.Body, e))) != "c.requestID.Add(1)" {
+						src = "other"
+					}
+				}
+			}
+			out = append(out, pdClientOp{spec.recv, fd.Name.Name, src})
+		}
+	}
+	sort.Slice(out, func(i, j int) bool {
+		if out[i].client != out[j].client {
+			return out[i].client < out[j].client
+		}
+		return out[i].method < out[j].method
+	})
+	return out
+}
+
+// pdIDFallbacks: functions that number a request themselves when it comes without an id (`if req.ID == nil { req.ID = … }`).
+func pdIDFallbacks(p *pkgSrc) []string {
+	var out []string
+	for _, fname := range []string{"transport_stdio.go", "sse_client.go", "streamable_client.go"} {
+		file := p.files[fname]
+		if file == nil {
+			continue
+		}
+		for _, d := range file.Decls {
+			fd, ok := d.(*ast.FuncDecl)
+			if !ok || fd.Body == nil {
+				continue
+			}
+			ast.Inspect(fd.Body, func(n ast.Node) bool {
+				is, ok := n.(*ast.IfStmt)
+				if !ok {
+					return true
+				}
+				c := pdSquash(p.text(is.Cond))
+				if strings.HasSuffix(c, ".ID == nil") {
+					out = append(out, funcName(fd))
+				}
+				return true
+			})
+		}
+	}
+	sort.Strings(out)
+	return out
+}
+
+func genPendingClients(root *pkgSrc) {
+	var b strings.Builder
+	b.WriteString(header)
+	b.WriteString("namespace Mcp.Gen\n")
+	b.WriteString("/-- a client method that issues a request: where the request's id comes from (clientCounter | none | other). -/\n")
+	b.WriteString("structure PdClientOp where\n  client : List Nat\n  method : List Nat\n  idSource : List Nat\n  deriving Repr, DecidableEq\n")
+	b.WriteString("def pdClientOps : List PdClientOp := [\n")
+	ops := pdClientOps(root)
+	for i, o := range ops {
+		sep := ","
+		if i == len(ops)-1 {
+			sep = ""
+		}
+		fmt.Fprintf(&b, "  ⟨%s, %s, %s⟩%s -- %s.%s %s\n", leanText(o.client), leanText(o.method), leanText(o.idSource), sep, o.client, o.method, o.idSource)
+	}
+	b.WriteString("]\n")
+	fmt.Fprintf(&b, "/-- transport functions that number a request themselves when it arrives without an id. -/\ndef pdIdFallbacks : List (List Nat) := %s\n", pdTextList(pdIDFallbacks(root)))
+	b.WriteString("end Mcp.Gen\n")
+	writeIfChanged("PendingClients.lean", b.String())
+}
+
+func init() { generators = append(generators, genPendingClients) }
